@@ -24,11 +24,17 @@ CompBases == <<
      <<"2", "SALIDA", "ACS", "1", "1">>, <<"2", "AUX", "1", "1">> >>,
   << <<"3", "PRODUCCION", "EL_COGEN", "4", "4">>, <<"3", "CONSUMO", "COGEN", "GASNATURAL", "12", "12">>, <<"CONSUMO", "NEPB", "ELECTRICIDAD", "1", "1">>,
      <<"CONSUMO", "ACS", "ELECTRICIDAD", "3", "9">> >>,
-  << <<"#META CTE_AREAREF: 10">>, <<"1", "CONSUMO", "REF", "ELECTRICIDAD", "3", "0">>, <<"1", "SALIDA", "REF", "-9", "0">>, <<"1", "AUX", "1", "0">>, <<"DEMANDA", "REF", "9", "0">> >> >>
+  << <<"#META CTE_AREAREF: 10">>, <<"1", "CONSUMO", "REF", "ELECTRICIDAD", "3", "0">>, <<"1", "SALIDA", "REF", "-9", "0">>, <<"1", "AUX", "1", "0">>, <<"DEMANDA", "REF", "9", "0">> >>,
+  \* comments and metadata text with non-ASCII characters next to the characters XML escapes ("<CM>" is expanded by the
+  \* writers to a comment mixing them): the valid file and every fault that leaves the text alone are rendered
+  << <<"#META Nota: x <CM>">>, <<"0", "CONSUMO", "ILU", "ELECTRICIDAD", "4", "6 <CM>">>, <<"0", "PRODUCCION", "EL_INSITU", "9", "1 <CM>">>,
+     <<"DEMANDA", "ACS", "3", "3 <CM>">> >> >>
 FactorBases == <<
   << <<"ELECTRICIDAD", "RED", "SUMINISTRO", "A", "0.5", "2.0", "0.4">>, <<"GASNATURAL", "RED", "SUMINISTRO", "A", "0.0", "1.1", "0.2">> >>,
   << <<"#META CTE_FUENTE: x">>, <<"ELECTRICIDAD", "RED", "SUMINISTRO", "A", "0.5", "2.0", "0.4">>, <<"ELECTRICIDAD", "INSITU", "A_RED", "B", "0.1", "0.2", "0.3">>,
-     <<"ELECTRICIDAD", "COGEN", "A_NEPB", "A", "0.1", "2.2", "0.3">> >> >>
+     <<"ELECTRICIDAD", "COGEN", "A_NEPB", "A", "0.1", "2.2", "0.3">> >>,
+  << <<"#META CTE_FUENTE: <CM>">>, <<"ELECTRICIDAD", "RED", "SUMINISTRO", "A", "0.5", "2.0", "0.4 <CM>">>,
+     <<"GASNATURAL", "RED", "SUMINISTRO", "A", "0.0", "1.1", "0.2 <CM>">> >> >>
 SoupAtoms == {"0", "CONSUMO", "DEMANDA", "ACS", "ELECTRICIDAD", "1e39", "", "#"}
 
 Init ==
